@@ -2,6 +2,7 @@ package checks
 
 import (
 	"fmt"
+	"os"
 	"path/filepath"
 	"regexp"
 	"sort"
@@ -169,6 +170,7 @@ func C15(r *core.Run) int {
 	}
 	close(ch)
 	wg.Wait()
+	dirRuns := c15DirMode(r, cli, outs)
 	inDomain := status["ok"] + status["refused"] + status["panic"] + status["fatal"] + status["format-error"] + status["gofmt"]
 	if inDomain < 500 {
 		r.Inconclusive("only %d mutants accepted by the loader", inDomain)
@@ -193,6 +195,7 @@ func C15(r *core.Run) int {
 		"loader_rejected_or_panic":  status["loader"],
 		"panic_sites":               siteList,
 		"cli_runs":                  cliRuns,
+		"dir_mode_runs":             dirRuns,
 		"error_names_location_rate": ratio,
 	}
 	return r.Finish(cov, []string{"domain = documents accepted by openapi3.SwaggerLoader.LoadSwaggerFromFile (checked per mutant before generating)", "'says where' is judged weakly: non-empty, not a bare Go runtime error text; the share of messages quoting a key from the mutated location is reported, not judged"})
@@ -217,4 +220,56 @@ func saysWhere(msg, caseID string) bool {
 		}
 	}
 	return false
+}
+
+// c15DirMode: the CLI's --dir mode over several spec directories must exit
+// non-zero as soon as one of them is refused, wherever it sorts.
+func c15DirMode(r *core.Run, cli string, outs []*GenOutcome) int {
+	var good, bad *GenOutcome
+	for _, g := range outs {
+		if g.Status == "ok" && good == nil {
+			good = g
+		}
+		if g.Status == "refused" && bad == nil {
+			bad = g
+		}
+	}
+	if good == nil || bad == nil {
+		return 0
+	}
+	runs := 0
+	layouts := map[string][]string{
+		"all-good":     {"a:good", "b:good", "c:good"},
+		"bad-first":    {"a:bad", "b:good", "c:good"},
+		"bad-middle":   {"a:good", "b:bad", "c:good"},
+		"bad-last":     {"a:good", "b:good", "c:bad"},
+		"bad-only":     {"a:bad"},
+		"bad-bad-good": {"a:bad", "b:bad", "c:good"},
+	}
+	for _, name := range core.SortedKeys(layouts) {
+		root := filepath.Join(r.Scratch, "dirmode", name)
+		expectFail := false
+		for _, ent := range layouts[name] {
+			parts := strings.SplitN(ent, ":", 2)
+			d := filepath.Join(root, parts[0])
+			_ = os.MkdirAll(d, 0o755)
+			src := good
+			if parts[1] == "bad" {
+				src = bad
+				expectFail = true
+			}
+			_ = os.WriteFile(filepath.Join(d, "openapi.yaml"), src.P.Case.SpecBytes(), 0o644)
+		}
+		out, err := core.RunCmd(r.Scratch, 2*time.Minute, nil, cli, "--dir", root, "--package", "gen", "--spec", "openapi.yaml")
+		runs++
+		switch {
+		case expectFail && err == nil:
+			r.Report(core.Violation{Case: "dirmode/" + name, Class: "exit-status", Message: "--dir mode exited 0 although one of the spec directories was refused", Observed: core.Trunc(out, 1500), Spec: string(bad.P.Case.SpecBytes())})
+		case !expectFail && err != nil:
+			r.Report(core.Violation{Case: "dirmode/" + name, Class: "exit-status", Message: "--dir mode failed although every spec directory generates alone", Observed: core.Trunc(out, 1500)})
+		case strings.Contains(out, "panic:") || strings.Contains(out, "goroutine "):
+			r.Report(core.Violation{Case: "dirmode/" + name, Class: "panic", Message: "--dir mode: " + core.Trunc(firstLine(out), 160), Observed: core.Trunc(out, 1500)})
+		}
+	}
+	return runs
 }
